@@ -110,6 +110,26 @@ def predicted_writes(classes):
     return out
 
 
+def weighted_observer_calls(est, observers, X, y, w):
+    """[(label, thunk)]: every (X, y) observer that also takes `sample_weight` (score) called WITH the weights - the
+    caller's weight array is caller data like X and y"""
+    import inspect
+    out = []
+    if w is None:
+        return out
+    for ob in observers:
+        if not ob.endswith("_xy"):
+            continue
+        m = getattr(est, ob[:-3], None)
+        try:
+            ok = m is not None and "sample_weight" in inspect.signature(m).parameters
+        except (TypeError, ValueError):
+            ok = False
+        if ok:
+            out.append((ob[:-3] + "[sample_weight]", lambda m=m: m(X, y, sample_weight=w)))
+    return out
+
+
 def observer_method(name):
     return name[:-3] if name.endswith("_xy") else name
 
@@ -329,6 +349,8 @@ def run_scenario(e, scenario, variant, seed, ctx_rng_seed):
                         repr(r)[:80], "self"))
         for ob in e.observers:
             guarded(observer_method(ob), lambda ob=ob: _menu.call_observer(est, ob, X, y), (X, y, w))
+        for label, thunk in weighted_observer_calls(est, e.observers, X, y, w):
+            guarded(label, thunk, (X, y, w))
         return bad, True
     # failing fit first
     if kind == "bad-data":
@@ -424,6 +446,8 @@ def run_guided(e, override, variant, seed, ctx_rng_seed, fail_at=None):
     if err is None:
         for ob in e.observers:
             guarded(observer_method(ob), lambda ob=ob: _menu.call_observer(est, ob, X, y), (X, y, w))
+        for label, thunk in weighted_observer_calls(est, e.observers, X, y, w):
+            guarded(label, thunk, (X, y, w))
     return bad, True
 
 
